@@ -81,6 +81,92 @@ pub(crate) mod verif_data {
     //@ desc="get_key(array of 3, integer i), every i64"
     get_key_array_harness!(k_c11_get_key_array3, 3);
 
+    // ---- get_key with an integer key on STRING data: indexed by Unicode character (Chars by contract)
+    pub(crate) fn body_get_key_string(l: usize) {
+        use crate::verif_support::chars_contract as cc;
+        cc::reset(l);
+        let data = MD::new(Value::String(String::from(cc::real_text(l))));
+        let idx: i64 = kani::any();
+        let r = MD::new(get_key(&data, KeyType::Number(idx)));
+        kani::cover!(true, "returned");
+        match spec_get_index(l, idx) {
+            Some(k) => {
+                let mut one = String::with_capacity(4);
+                one.push(cc::abstract_char(k));
+                assert!(matches!(&*r, Some(Value::String(s)) if *s == one), "var on a string: the index counts Unicode characters (from the end when negative) and yields that one character");
+            }
+            None => assert!(r.is_none(), "var on a string: an out-of-range index is absent"),
+        }
+    }
+    macro_rules! get_key_string_harness {
+        ($name:ident, $l:expr) => {
+            #[cfg_attr(kani, kani::proof)]
+            #[cfg_attr(kani, kani::unwind(7))]
+            #[cfg_attr(kani, kani::stub(<serde_json::Value as std::clone::Clone>::clone, crate::verif_support::value_clone_shallow))]
+            #[cfg_attr(kani, kani::stub(<std::str::Chars<'_> as std::iter::Iterator>::next, crate::verif_support::chars_contract::CharsContract::next))]
+            #[cfg_attr(kani, kani::stub(<std::str::Chars<'_> as std::iter::Iterator>::advance_by, crate::verif_support::chars_contract::CharsContract::advance_by))]
+            pub(crate) fn $name() {
+                body_get_key_string($l);
+            }
+        };
+    }
+    //@ob name=C11.get_key.string2 harness=k_c11_get_key_string2 props=C11,C01 strength=bounded bound="a 2-character string (1-byte and 4-byte characters; Chars by contract); EVERY i64 index" fns=op::data::get_key,op::data::get stubs=3 timeout=400 cutdrop=1
+    //@ desc="get_key(string, integer i): strings are indexed by Unicode character, negative indices from the end, out of range absent - for every i64"
+    get_key_string_harness!(k_c11_get_key_string2, 2);
+    //@ob name=C11.get_key.string3 harness=k_c11_get_key_string3 props=C11,C01 tier=thorough strength=bounded bound="a 3-character string (1-, 4-, 2-byte characters; Chars by contract); EVERY i64 index" fns=op::data::get_key,op::data::get stubs=3 timeout=600 cutdrop=1
+    //@ desc="get_key(string of 3 characters, integer i), every i64"
+    get_key_string_harness!(k_c11_get_key_string3, 3);
+
+    // ---- get_str_key on ARRAY data: the path is split (escapes honoured) and each segment is an integer index
+    /// text: the key, as concrete characters (the real &str and the abstract Chars text agree)
+    pub(crate) fn body_get_str_key_array(text: &'static str, expect_idx: Option<usize>) {
+        use crate::verif_support::chars_contract as cc;
+        let b = text.as_bytes();
+        let mut i = 0;
+        while i < b.len() {
+            unsafe { cc::CH_TEXT[i] = b[i] as char };
+            i += 1;
+        }
+        unsafe { cc::CH_USE_TEXT = true };
+        cc::reset(b.len());
+        let e: [u64; 3] = [kani::any(), kani::any(), kani::any()];
+        let mut v: Vec<Value> = Vec::with_capacity(3);
+        v.push(Value::Number(serde_json::Number::from(e[0])));
+        v.push(Value::Number(serde_json::Number::from(e[1])));
+        v.push(Value::Number(serde_json::Number::from(e[2])));
+        let data = MD::new(Value::Array(v));
+        let r = MD::new(get_str_key(&data, text));
+        kani::cover!(true, "returned");
+        match expect_idx {
+            Some(k) => assert!(matches!(&*r, Some(Value::Number(x)) if x.as_u64() == Some(e[k])), "var with a string key on an array: the key (escapes removed) is the integer index"),
+            None => assert!(r.is_none(), "var with a string key on an array: a non-index or out-of-range key is absent"),
+        }
+    }
+    macro_rules! get_str_key_array_harness {
+        ($name:ident, $text:expr, $expect:expr) => {
+            #[cfg_attr(kani, kani::proof)]
+            #[cfg_attr(kani, kani::unwind(8))]
+            #[cfg_attr(kani, kani::stub(<serde_json::Value as std::clone::Clone>::clone, crate::verif_support::value_clone_shallow))]
+            #[cfg_attr(kani, kani::stub(<std::str::Chars<'_> as std::iter::Iterator>::next, crate::verif_support::chars_contract::CharsContract::next))]
+            #[cfg_attr(kani, kani::stub(std::string::String::push, ascii_push_stub))]
+            pub(crate) fn $name() {
+                body_get_str_key_array($text, $expect);
+            }
+        };
+    }
+    //@ob name=C11.get_str_key.array.plain harness=k_c11_gsk_plain props=C11,C01 tier=off strength=bounded bound="array of 3 symbolic numbers, key \"1\"" fns=op::data::get_str_key,op::data::split_with_escape,op::data::get stubs=3 timeout=400 cutdrop=2 group=medium
+    //@ desc="a string key that is an integer indexes the array"
+    get_str_key_array_harness!(k_c11_gsk_plain, "1", Some(1));
+    //@ob name=C11.get_str_key.array.escaped harness=k_c11_gsk_escaped props=C11,C01 tier=off strength=bounded bound="array of 3 symbolic numbers, key \"\\\\1\" (escaped digit, no dot)" fns=op::data::get_str_key,op::data::split_with_escape,op::data::get stubs=3 timeout=400 cutdrop=2 group=medium
+    //@ desc="a backslash makes the next character literal even when the key contains no dot: \"\\\\1\" is the index 1"
+    get_str_key_array_harness!(k_c11_gsk_escaped, "\\1", Some(1));
+    //@ob name=C11.get_str_key.array.negative harness=k_c11_gsk_negative props=C11,C01 tier=off strength=bounded bound="array of 3 symbolic numbers, key \"-1\"" fns=op::data::get_str_key,op::data::split_with_escape,op::data::get stubs=3 timeout=400 cutdrop=2 group=medium
+    //@ desc="a negative integer key counts from the end"
+    get_str_key_array_harness!(k_c11_gsk_negative, "-1", Some(2));
+    //@ob name=C11.get_str_key.array.absent harness=k_c11_gsk_absent props=C11,C01 tier=off strength=bounded bound="array of 3 symbolic numbers, key \"7\"" fns=op::data::get_str_key,op::data::split_with_escape,op::data::get stubs=3 timeout=400 cutdrop=2 group=medium
+    //@ desc="an out-of-range index is absent"
+    get_str_key_array_harness!(k_c11_gsk_absent, "7", None);
+
     // =====================================================================================
     // C11: split_with_escape as a function - "a dot-separated path (a backslash makes the next character
     // literal)". The input is an ABSTRACT string (Chars by contract) of up to 4 characters, each a symbolic
